@@ -324,7 +324,8 @@ where
     #[inline(always)]
     unsafe fn get_unchecked(&self, i: usize) -> Self::Item {
         let mut cur_i = i;
-        let mut result: u32 = 0;
+        let mut result: u32 = 0; // code read so far (compressed tree only)
+        let mut result_plain = T::zero(); // symbol read so far (plain tree only: it may need more than 32 bits)
 
         let mut shift = 0;
 
@@ -334,7 +335,11 @@ where
             }
 
             let symbol = self.bvs[level].get_unchecked(cur_i);
-            result = (result << 1) | symbol as u32;
+            if COMPRESSED {
+                result = (result << 1) | symbol as u32;
+            } else {
+                result_plain = (result_plain << 1) | (symbol as usize).as_();
+            }
 
             let tmp = self.bvs[level].rank1_unchecked(cur_i);
 
@@ -353,7 +358,7 @@ where
 
             T::from(self.codes_decode.as_ref().unwrap()[shift][idx].1).unwrap()
         } else {
-            T::from(result).unwrap()
+            result_plain
         }
     }
 }
@@ -390,19 +395,24 @@ where
         let mut cur_p = 0;
 
         let symbol_len;
-        let repr;
+        let repr; // code of the symbol (compressed tree only)
 
         if COMPRESSED {
             let code = &self.codes_encode.as_ref().unwrap()[symbol.as_() as usize];
             symbol_len = code.len as usize;
             repr = code.content;
         } else {
-            repr = symbol.as_() as u32;
+            repr = 0;
             symbol_len = self.n_levels;
         }
 
         for level in 0..symbol_len {
-            let bit = ((repr >> (symbol_len - level - 1)) & 1) == 1;
+            // in the plain tree the bits are those of the symbol itself, which may need more than 32 bits
+            let bit = if COMPRESSED {
+                ((repr >> (symbol_len - level - 1)) & 1) == 1
+            } else {
+                ((symbol >> (symbol_len - level - 1)).as_() & 1) == 1
+            };
 
             let offset = self.bvs[level].n_zeros();
 
@@ -444,14 +454,14 @@ where
         }
 
         let symbol_len;
-        let repr;
+        let repr; // code of the symbol (compressed tree only)
 
         if COMPRESSED {
             let code = &self.codes_encode.as_ref().unwrap()[symbol.as_() as usize];
             symbol_len = code.len as usize;
             repr = code.content;
         } else {
-            repr = symbol.as_() as u32;
+            repr = 0;
             symbol_len = self.n_levels;
         }
         let mut b = 0;
@@ -462,7 +472,12 @@ where
         for level in 0..symbol_len {
             path_off.push(b);
 
-            let bit = ((repr >> (symbol_len - level - 1)) & 1) == 1;
+            // in the plain tree the bits are those of the symbol itself, which may need more than 32 bits
+            let bit = if COMPRESSED {
+                ((repr >> (symbol_len - level - 1)) & 1) == 1
+            } else {
+                ((symbol >> (symbol_len - level - 1)).as_() & 1) == 1
+            };
 
             let rank_b = if bit {
                 self.bvs[level].rank1(b)
@@ -479,7 +494,11 @@ where
         for level in (0..symbol_len).rev() {
             b = path_off[level];
             let rank_b = rank_path_off[level];
-            let bit = ((repr >> (symbol_len - level - 1)) & 1) == 1;
+            let bit = if COMPRESSED {
+                ((repr >> (symbol_len - level - 1)) & 1) == 1
+            } else {
+                ((symbol >> (symbol_len - level - 1)).as_() & 1) == 1
+            };
 
             result = if bit {
                 self.bvs[level].select1(rank_b + result)
